@@ -105,10 +105,12 @@ def copy_tree(src, dst, exclude):
 
 SLOT = None
 CASES = None
+BIN = None      # private copies of the model drivers (the ones under lean/.lake are rebuilt by concurrent checks)
 
 
 def setup_slot(q, scratch, repo):
-    global SLOT, CASES
+    global SLOT, CASES, BIN
+    BIN = os.path.join(scratch, "bin")
     k = q.get()
     d = os.path.join(scratch, "s%d" % k)
     os.makedirs(d, exist_ok=True)
@@ -141,6 +143,13 @@ def gen_text(src, outdir):
 
 
 def run_mutant(m):
+    try:
+        return run_mutant_(m)
+    except Exception as e:   # noqa: BLE001 -- one broken mutant must not end the sweep
+        return {"file": m["file"], "line": m["line"], "old": m["old"], "new": m["new"], "outcome": "sweep_error", "note": repr(e)[:300]}
+
+
+def run_mutant_(m):
     d = SLOT
     repo = os.path.join(d, "repo")
     fp = os.path.join(repo, m["file"])
@@ -175,7 +184,8 @@ def run_mutant(m):
             hb = os.path.join(d, "harness_arr/target/release/slarr") if isarr else os.path.join(d, "harness/target/release/slharness")
             cs = CASES[prop]
             try:
-                rs = R.run_cases(prop, [c[0] for c in cs], "mut%d" % os.getpid(), hb, getattr(spec, "DRIVER", None))
+                drv = os.path.join(BIN, "slvarr" if isarr else "slvmodel")
+                rs = R.run_cases(prop, [c[0] for c in cs], "mut%d" % os.getpid(), hb, drv)
             except RuntimeError as e:
                 by[prop] = "input:driver-error"
                 continue
@@ -220,6 +230,7 @@ def main():
     ap.add_argument("--files", default="")
     ap.add_argument("--out", default=os.path.join(ROOT, "work", "mutsweep.jsonl"))
     ap.add_argument("--keep", action="store_true")
+    ap.add_argument("--bin", default="", help="directory holding slvmodel and slvarr (default: lean/.lake/build/bin)")
     a = ap.parse_args()
     muts = enumerate_mutants(a.repo)
     if a.files:
@@ -249,6 +260,9 @@ def main():
     json.dump(cases, open(os.path.join(a.scratch, "cases.json"), "w"))
     rc, base = gen_text(os.path.join(a.repo, "src"), os.path.join(a.scratch, "gen_base"))
     open(os.path.join(a.scratch, "gen_base.txt"), "w").write(base)
+    os.makedirs(os.path.join(a.scratch, "bin"), exist_ok=True)
+    for b in ("slvmodel", "slvarr"):
+        shutil.copy(os.path.join(a.bin or os.path.join(R.LEAN, ".lake", "build", "bin"), b), os.path.join(a.scratch, "bin", b))
     q = mp.Queue()
     for k in range(a.slots):
         q.put(k)
